@@ -478,6 +478,7 @@ func poolEscapes(c *Ctx, f *ssa.Function, allowed map[string]int) []string {
 		return nil
 	}
 	seen := map[ssa.Value]bool{}
+	depth := 0
 	var follow func(v ssa.Value)
 	follow = func(v ssa.Value) {
 		if seen[v] || v.Referrers() == nil {
@@ -518,6 +519,19 @@ func poolEscapes(c *Ctx, f *ssa.Function, allowed map[string]int) []string {
 				if k == "builtin:append" {
 					if a := t.Common().Args; len(a) == 2 && a[1] == v && a[0] != v {
 						ok = true // append(dst, pooled...) copies
+					}
+				}
+				if !ok {
+					// a module helper: look at what it does with the parameter
+					if g := staticCallee(t); g != nil && inModule(g) && len(g.Blocks) > 0 && depth < 2 {
+						ok = true
+						for i, x := range t.Common().Args {
+							if x == v && i < len(g.Params) {
+								depth++
+								follow(g.Params[i])
+								depth--
+							}
+						}
 					}
 				}
 				if !ok {
